@@ -55,10 +55,11 @@ def _model_check(ctx, cfg, workers, timeout):
 def run(ctx):
     q = ctx.quick
     # 1. model check of the specification itself
-    _model_check(ctx, "MC_Norm", 4, 400)
-    if not q:
-        _model_check(ctx, "MC_Norm_thorough", 8, 1100)
-        _model_check(ctx, "MC_Norm_views", 8, 1100)
+    if q:
+        _model_check(ctx, "MC_Norm", 4, 400)                # chains <= 2, one view, one tangential position
+    else:
+        _model_check(ctx, "MC_Norm_thorough", 8, 1100)      # chains <= 3, two tangential positions
+        _model_check(ctx, "MC_Norm_views", 8, 1100)         # two views: the groupings that relate views
     # 2. record
     if ctx.replay:
         traces = [ctx.replay]
